@@ -25,6 +25,7 @@ import Argot.Spec.C07Tables
 import Argot.Gen.T1Dispatch
 import Argot.Gen.T8Panics
 import Argot.Gen.T11HasPath
+import Argot.Gen.T12TraceSteps
 
 namespace Argot.C07
 open Argot.Gen
@@ -53,6 +54,10 @@ theorem panic_sites_accounted : T8.panicSites = Spec.classified.map Spec.Site.ke
 
 /-- the translator recognised which of the two models describes `lang.HasPathTo`, and the queue is FIFO. -/
 theorem hasPath_shape_known : (T11.markOn = "dequeue" ∨ T11.markOn = "enqueue") ∧ T11.fifo = true := by decide
+
+/-- every expression the visitors use for a successor's `Trace` / `ClosureTrace` is in the hand-classified list
+(same / ancestor / add): the code-side content of hypothesis `StepShape` of `visit_terminates`. -/
+theorem trace_steps_accounted : T12.traceExprs = Spec.traceExprs.map Spec.TraceExpr.key := by decide
 
 /-! ## lang.HasPathTo -/
 
@@ -257,6 +262,7 @@ example : numNodup 3 = 16 ∧ geo 2 4 = 31 := by decide
 #print axioms dispatch_total_full_fails
 #print axioms panic_sites_accounted
 #print axioms hasPath_shape_known
+#print axioms trace_steps_accounted
 #print axioms hasPathFix_linear
 #print axioms hasPathFix_linearlyBounded
 #print axioms hasPathCur_terminates
